@@ -21,7 +21,7 @@ MC = {  # pid -> tier -> (cfg, module, simulate-spec or None, timeout)
     "C07": {"quick": ("MC_C07_quick.cfg", "MC_cyc.tla"), "thorough": ("MC_C07_thorough.cfg", "MC_cyc.tla")},
 }
 
-N_CASES = {"quick": 1600, "thorough": 10000}
+N_CASES = {"quick": 1600, "thorough": 8000}
 
 def gen_cases(pid, tier, seed, wd):
     rng = random.Random(seed * 1000003 + int(pid[1:]))
@@ -165,7 +165,7 @@ def run(pid, tier, seed):
     violations = []
     # (a) model checking
     cfg, module = MC[pid][tier]
-    mc = engine_check.model_check(cfg, module, timeout=900 if tier == "quick" else 7200)
+    mc = engine_check.model_check(cfg, module, timeout=900 if tier == "quick" else 1500)
     if mc["violated"]:
         tr = os.path.join(vlib.REPLAY, pid); os.makedirs(tr, exist_ok=True)
         p = os.path.join(tr, "tlc-counterexample-%s.txt" % tier); open(p, "w").write(mc["out"][-200000:])
